@@ -85,6 +85,20 @@ theorem fromFiles_single_err (cur : Env) (f : Str) (m pm : Map) (e : PErr) (h : 
     fromFiles cur [f] m = .err e m := by
   rw [fromFiles, h]
 
+theorem readFiles_render_lemma (lk : Env) : ∀ (fs : List (Bool × List Line)) (m : Map),
+    (∀ f ∈ fs, WF f.2 = true) →
+    readFiles lk (fs.map fun f => withBOM f.1 (render f.2)) m = evalReadFrom lk (fs.map Prod.snd) m
+  | [], m, _ => rfl
+  | (b, ls) :: fs, m, h => by
+    have hwf : WF ls = true := h (b, ls) (by simp)
+    simp only [List.map_cons]
+    rw [readFiles, evalReadFrom, stripBOM_render b ls hwf, parse_render_lemma lk ls hwf]
+    generalize evalLines lk ls = o
+    cases o with
+    | ok env => exact readFiles_render_lemma lk fs _ (fun f hf => h f (by simp [hf]))
+    | err e pm => rfl
+    | panic s => rfl
+
 /-! ## E.2 double-quoted values that need escape processing -/
 
 /-- write arbitrary text between double quotes: the quote as `\"`, the backslash as `\\`, everything else as it is
